@@ -90,8 +90,23 @@ def _verdict(ctx, case, kind, got, expected_fn, det, rel=0.0):
 
 def gen_c05(rng, tier):
     cfg = _cfg(tier, records=False)
-    pop = rng.choice(["unflatten", "unflatten", "ravel", "flatten_none", "num", "flatten", "local_index"])
+    pop = rng.choice(["unflatten", "unflatten", "unflatten_axis1", "unflatten_axis1", "ravel", "flatten_none", "num",
+                      "flatten", "local_index"])
     depth = rng.choice([1, 2, 2, 3])
+    if pop == "unflatten_axis1":
+        # lists of lists of items, no missing lists at levels 1 and 2 (the law's precondition)
+        T = {"t": "list", "e": {"t": "list", "e": _lists(rng, cfg, rng.choice([0, 0, 1]), option_p=0.3)}}
+        n = rng.choice([0, 1, 2, 3, 5])
+        vals = gen.gen_values(rng, T, n, cfg)
+        # (a count of zero could belong to either neighbour when outer lists are empty: the law is only well-defined
+        #  with non-empty inner lists)
+        vals = [[y if len(y) else [gen.gen_value(rng, T["e"]["e"], cfg)] for y in x] for x in vals]
+        # the argument of unflatten in its own (possibly non-compact) encoding: the lists of x merged one level up
+        Ty = {"t": "list", "e": T["e"]["e"]}
+        yvals = [[z for y in x for z in y] for x in vals]
+        counts = [len(y) for x in vals for y in x]
+        return {"pop": pop, "T": T, "layout": gen.encode(rng, T, vals, "random", cfg), "axis": 1,
+                "y_layout": gen.encode(rng, Ty, yvals, "random", cfg), "counts": counts}
     T = _lists(rng, cfg, depth, option_p=0.25 if pop != "unflatten" else 0.0, regular_p=0.15)
     if pop == "unflatten":
         # no missing lists at level 1 (the law's precondition); options further down are fine
@@ -114,6 +129,14 @@ def run_c05(ctx, ak, P, case):
     if pop == "unflatten":
         kind, got = _call(P, lambda: P.value(ak.unflatten(ak.flatten(x, axis=1), ak.num(x, axis=1))))
         return _verdict(ctx, case, kind, got, lambda: v, det)
+    if pop == "unflatten_axis1":
+        kind, got = _call(P, lambda: P.value(ak.unflatten(ak.flatten(x, axis=2), ak.flatten(ak.num(x, axis=2), axis=None),
+                                                          axis=1)))
+        _verdict(ctx, case, kind, got, lambda: v, det)
+        y = P.array(case["y_layout"])
+        counts = np.array(case["counts"], dtype=np.int64)
+        kind, got = _call(P, lambda: P.value(ak.unflatten(y, counts, axis=1)))
+        return _verdict(ctx, case, kind, got, lambda: v, dict(det, counts=case["counts"][:20]))
     if pop in ("ravel", "flatten_none"):
         fn = (lambda: P.value(ak.ravel(x))) if pop == "ravel" else (lambda: P.value(ak.flatten(x, axis=None)))
         kind, got = _call(P, fn)
@@ -135,7 +158,8 @@ def run_c05(ctx, ak, P, case):
 
 def gen_c07(rng, tier):
     cfg = _cfg(tier, records=False)
-    pop = rng.choice(["cartesian", "cartesian", "argcartesian", "argcombinations", "cartesian_nested"])
+    pop = rng.choice(["cartesian", "cartesian", "argcartesian", "argcombinations", "cartesian_nested",
+                      "cartesian_dict_nested", "argcartesian_dict_nested"])
     k = rng.choice([2, 2, 3])
     n = rng.choice([0, 1, 2, 3])
     arrays = []
@@ -168,6 +192,21 @@ def run_c07(ctx, ak, P, case):
         return _verdict(ctx, case, kind, got,
                         lambda: [[tuple(t) for t in itertools.product(*[range(len(v[i])) for v in vs])]
                                  for i in range(len(vs[0]))], det)
+    if pop in ("cartesian_dict_nested", "argcartesian_dict_nested"):
+        keys = ["a", "b", "c"][:len(xs)]
+        fn = ak.cartesian if pop == "cartesian_dict_nested" else ak.argcartesian
+        kind, got = _call(P, lambda: P.value(fn(dict(zip(keys, xs)), axis=1, nested=True)))
+
+        def nested_d(rows):
+            def rec(prefix, rest):
+                if len(rest) == 1:
+                    return [dict(zip(keys, prefix + [y])) for y in rest[0]]
+                return [rec(prefix + [y], rest[1:]) for y in rest[0]]
+            return rec([], rows)
+        if pop == "cartesian_dict_nested":
+            return _verdict(ctx, case, kind, got, lambda: [nested_d([v[i] for v in vs]) for i in range(len(vs[0]))], det)
+        return _verdict(ctx, case, kind, got,
+                        lambda: [nested_d([list(range(len(v[i]))) for v in vs]) for i in range(len(vs[0]))], det)
     if pop == "cartesian_nested":
         kind, got = _call(P, lambda: P.value(ak.cartesian(xs, axis=1, nested=True)))
 
@@ -194,7 +233,8 @@ def run_c07(ctx, ak, P, case):
 
 def gen_c08(rng, tier):
     cfg = _cfg(tier, records=False)
-    pop = rng.choice(["concatenate_axis1", "concatenate_axis1", "concatenate_axis0", "values_astype"])
+    pop = rng.choice(["concatenate_axis1", "concatenate_axis1", "concatenate_axis1_missing", "concatenate_axis0",
+                      "values_astype"])
     n = rng.choice([0, 1, 2, 4])
     if pop == "values_astype":
         T = _lists(rng, cfg, rng.choice([0, 1, 2]), option_p=0.3)
@@ -208,7 +248,9 @@ def gen_c08(rng, tier):
         leaf = gen.P(rng.choice(INTS + ["float64", "float32"]))
         inner = {"t": "list", "e": leaf} if deep else leaf
         T = {"t": "list", "e": inner}
-        m = n if pop == "concatenate_axis1" else rng.choice([0, 1, 3])
+        if pop == "concatenate_axis1_missing" and rng.random() < 0.7:
+            T = {"t": "option", "e": T}           # some of the lists are missing (every option encoding)
+        m = n if pop.startswith("concatenate_axis1") else rng.choice([0, 1, 3])
         vals = gen.gen_values(rng, T, m, cfg)
         arrays.append({"T": T, "layout": gen.encode(rng, T, vals, "random", cfg)})
     return {"pop": pop, "arrays": arrays}
@@ -247,7 +289,7 @@ def run_c08(ctx, ak, P, case):
                         raise NoOpinion("float outside the integer range")
             return _cast(vs[0], to)
         return _verdict(ctx, case, kind, got, expected, dict(det, to=to))
-    axis = 1 if pop == "concatenate_axis1" else 0
+    axis = 1 if pop.startswith("concatenate_axis1") else 0
     kind, got = _call(P, lambda: P.value(ak.concatenate(xs, axis=axis)))
     res = np.result_type(*[np.dtype(_leafdtype(a["T"])) for a in case["arrays"]])
 
@@ -257,7 +299,12 @@ def run_c08(ctx, ak, P, case):
             for v in vs:
                 out.extend(v)
         else:
-            out = [sum((v[i] for v in vs), []) for i in range(len(vs[0]))]
+            out = []
+            for i in range(len(vs[0])):
+                rows = [v[i] for v in vs]
+                if all(r is None for r in rows):
+                    raise NoOpinion("every operand's list is missing at this position")
+                out.append(sum((r for r in rows if r is not None), []))      # a missing list contributes nothing
         return _cast(out, res)
     return _verdict(ctx, case, kind, got, expected, det, rel=1e-6)
 
@@ -266,9 +313,14 @@ def run_c08(ctx, ak, P, case):
 
 def gen_c09(rng, tier):
     cfg = _cfg(tier, records=False)
-    pop = rng.choice(["is_none", "is_none", "fill_none", "fill_none_axis", "mask", "pad_none"])
+    pop = rng.choice(["is_none", "is_none", "fill_none", "fill_none_axis", "fill_none_axis", "mask", "pad_none"])
     depth = rng.choice([0, 1, 1, 2])
-    T = _lists(rng, cfg, depth, option_p=0.5)
+    leaf = None
+    if pop == "fill_none_axis" and rng.random() < 0.5:
+        k = rng.choice([1, 2])
+        leaf = {"t": "option", "e": {"t": "record", "keys": ["x", "y"][:k],
+                                     "fields": [{"t": "option", "e": gen.P(rng.choice(INTS))} for _ in range(k)]}}
+    T = _lists(rng, cfg, depth, leafT=leaf, option_p=0.5)
     if T["t"] != "option" and rng.random() < 0.5:
         T = {"t": "option", "e": T}
     n = rng.choice([0, 1, 3, 5])
@@ -305,15 +357,28 @@ def _fill_all(v, value):
     return v
 
 
+def _fill_here(x, value):
+    """one position at the addressed level: records do not add a level, so their missing fields belong to it"""
+    if x is None:
+        return value
+    if isinstance(x, dict):
+        return dict((k, _fill_here(y, value)) for k, y in x.items())
+    if isinstance(x, tuple):
+        return tuple(_fill_here(y, value) for y in x)
+    return x
+
+
 def _fill_at(v, k, value):
     if k == 0:
-        return [value if x is None else x for x in v]
+        return [_fill_here(x, value) for x in v]
     out = []
     for x in v:
         if x is None:
             out.append(None)
         elif isinstance(x, list):
             out.append(_fill_at(x, k - 1, value))
+        elif isinstance(x, dict):
+            raise NoOpinion("lists inside records")
         else:
             raise Refuse("axis exceeds depth")
     return out
@@ -368,15 +433,21 @@ def gen_c10(rng, tier):
     skel = gen.gen_values(rng, T0, n, cfg)
 
     def fresh(dt):
+        leafT = gen.P(dt) if dt not in ("string", "bytes") else {"t": dt}
+
         def rec(T, v):
             if T["t"] == "prim":
-                return gen.gen_value(rng, gen.P(dt), cfg)
+                if dt == "string":
+                    return rng.choice(["", "a", "bc", "h\u00e9llo"])
+                if dt == "bytes":
+                    return rng.choice([b"", b"a", b"bc", b"\xff\x00z"])
+                return gen.gen_value(rng, leafT, cfg)
             return [rec(T["e"], y) for y in v]
-        T = _retype(T0, dt)
+        T = _retype(T0, leafT)
         vals = [rec(T0, y) for y in skel]
         return {"T": T, "layout": gen.encode(rng, T, vals, "random", cfg)}
     k = rng.choice([1, 2, 3])
-    fields = [fresh(rng.choice(cfg.dtypes)) for _ in range(k)]
+    fields = [fresh(rng.choice(cfg.dtypes + ["string", "bytes"])) for _ in range(k)]
     names = rng.sample(["x", "y", "z", "a b"], k)
     case = {"pop": pop, "fields": fields, "names": names, "tuple": rng.random() < 0.25,
             "newname": rng.choice(["w", names[0], "q"]), "new": fresh(rng.choice(cfg.dtypes)),
@@ -384,11 +455,11 @@ def gen_c10(rng, tier):
     return case
 
 
-def _retype(T, dt):
+def _retype(T, leafT):
     if T["t"] == "prim":
-        return gen.P(dt)
+        return leafT
     out = dict(T)
-    out["e"] = _retype(T["e"], dt)
+    out["e"] = _retype(T["e"], leafT)
     return out
 
 
@@ -410,13 +481,20 @@ def run_c10(ctx, ak, P, case):
     zipped_arg = xs if istuple else dict(zip(names, xs))
     if pop in ("zip_unzip", "zip_depth"):
         kind, got = _call(P, lambda: P.value(ak.zip(zipped_arg)))
-        exp = lambda: _zipvals(vs, names, depth, istuple)     # noqa: E731
+        stringy = any(gen.typestr(f["T"]).endswith(("string", "bytes")) for f in case["fields"])
+
+        def exp():
+            if stringy:       # at which level the records of string fields sit is not fixed by the statement (the round
+                raise NoOpinion("zip depth with string fields")      # trip through unzip below is)
+            return _zipvals(vs, names, depth, istuple)
         _verdict(ctx, case, kind, got, exp, det)
         if kind == "value":
             kind2, got2 = _call(P, lambda: [P.value(y) for y in ak.unzip(ak.zip(zipped_arg))])
             _verdict(ctx, case, kind2, got2, lambda: vs, dict(det, op={"op": "unzip(zip)"}))
         return
     # with_field
+    if any(gen.typestr(f["T"]).endswith(("string", "bytes")) for f in case["fields"] + [case["new"]]):
+        return ctx.count("p_with_field_with_strings_skipped")
     kind0, base = _call(P, lambda: ak.zip(zipped_arg))
     if kind0 == "error":
         return _verdict(ctx, case, kind0, base, lambda: _zipvals(vs, names, depth, istuple), dict(det, op={"op": "zip_unzip"}))
